@@ -337,6 +337,22 @@ func (w *world) open(id string, db anystore.DB, hs headstorage.HeadStorage) *kvs
 	return &kvstore{id: id, st: st, sc: sc, db: db, hs: hs}
 }
 
+// openAs opens store id for another local account: its keys, its own view of the ACL log.
+func (w *world) openAs(id string, keys *accountdata.AccountKeys, acl list.AclList) *kvstore {
+	w.wipe(id)
+	sc := &capClient{}
+	st, err := keyvaluestorage.New(ctx, id, w.db, w.hs, keys, sc, acl, keyvaluestorage.NoOpIndexer{})
+	if err != nil {
+		panic(fmt.Sprintf("keyvaluestorage.New: %v", err))
+	}
+	if err = st.Prepare(); err != nil {
+		panic(fmt.Sprintf("Prepare: %v", err))
+	}
+	w.opened[id] = true
+	w.c.Count("executions", 1)
+	return &kvstore{id: id, st: st, sc: sc, db: w.db, hs: w.hs}
+}
+
 // fresh = wipe + open.
 func (w *world) fresh(id string) *kvstore {
 	w.wipe(id)
